@@ -83,7 +83,8 @@ const UNQUOTED: &[&str] = &[
 const LISTS: &[&str] = &[
     "1px 2px", "a, b", "(1, 2)", "[a b]", "[a, b]", "1px 2px, 3px 4px", "1px 2px 3px 4px", "(a b) (c d)",
     "join(a b, c d)", "append(1 2, 3, comma)", "$l", "nth($l, 2)", "1px solid red", "a b, c",
-    "\"x\", \"y\"", "0 0 0 1px rgba(0, 0, 0, 0.5)", "[]", "(a,)", "[a]",
+    "\"x\", \"y\"", "0 0 0 1px rgba(0, 0, 0, 0.5)", "[]", "(a,)", "[a]", "1px -2px", "3 -4 5", "0 -1px 2px -3px", "a -b", "1 +2",
+    "-1px -2px", "$i -1", "1em - 2px", "1 -$i", "10px -#{$i}px",
 ];
 const URLS: &[&str] = &[
     "url(a.png)", "url(\"a b.png\")", "url(#{$s}.png)", "url(data:image/png;base64,AAAA==)",
